@@ -102,7 +102,7 @@ S(id="D.diff.native", props=["C11"], spec="native/desc_diff_enum.c", mode="N", s
   what="yaep_parse_grammar on a description and yaep_read_grammar on the grammar the text denotes give the same definition result and the same parse results and trees (names, costs, codes)")
 S(id="T.pair.native", props=["C13"], spec="native/pair_enum.c", mode="N", link=["allocate.c", "hashtab.c", "objstack.c", "vlobject.c", "yaep.c"], harness="main", timeout=3600,
   params={"quick": {"NSYM": 3, "INLEN": 2, "PAIR_ALTS": 1}, "thorough": {"NSYM": 3, "INLEN": 2, "PAIR_ALTS": 2}},
-  bound="descriptions with one rule of 1 (thorough 2) alternatives of <= 2 symbols over {'a', B, N} and 7 translation forms; inputs of length <= 2; one/all parses; with/without cost flag",
+  bound="descriptions with one rule of 1 (thorough 2) alternatives of <= 2 symbols over {'a', B, N} and 7 translation forms, inputs of length <= 2; plus 216 ambiguous descriptions (2-3 alternatives for one token with abstract-node costs 1..3 in every order: flat, nested under S : P P, under a common node); one/all parses; with/without cost flag",
   functions=["yaep_parse", "make_parse", "find_minimal_translation", "yaep_free_tree", "yaep_free_grammar"],
   what="whole-parse ownership: parse_free only gets blocks parse_alloc returned during this parse, at most once, never NULL; everything reachable from the root is live after the parse and after "
        "yaep_free_grammar; yaep_free_tree releases every block exactly once, termcb once per TERM node; no block of the parse stays unreleased")
